@@ -128,7 +128,8 @@ def plan(tier, seed):
     def rcfg():
         return G.cfg(expr=rnd.choice(exprs), stop=rnd.random() < 0.3, dry=rnd.random() < 0.15,
                      show_skipped=rnd.random() < 0.6, cont=rnd.random() < 0.15,
-                     capture=(rnd.random() < 0.75, rnd.random() < 0.75, rnd.random() < 0.75), retry=rnd.random() < 0.2)
+                     capture=(rnd.random() < 0.75, rnd.random() < 0.75, rnd.random() < 0.75), retry=rnd.random() < 0.2,
+                     observe=rnd.random() < 0.3)
 
     def with_o2(p):
         """second-attempt outcomes for the steps of a program (scenario_autoretry)"""
@@ -201,7 +202,7 @@ def shared(chk, part="core"):
     """Run (or load) the shared stage for this tree / tier / seed.  Returns a dict:
        n_runs, tlc: [{module,cfg,distinct,generated,wall,coverage}], verdicts: {clause: [ {key, ...} ]},
        divergences, samples, design_violations"""
-    key = tree_key({"tier": chk.tier, "seed": chk.seed, "part": part, "v": 6})
+    key = tree_key({"tier": chk.tier, "seed": chk.seed, "part": part, "v": 7})
     os.makedirs(CACHE, exist_ok=True)
     path = os.path.join(CACHE, "%s-%s.json.gz" % (part, key))
     lock = open(os.path.join(CACHE, "%s-%s.lock" % (part, chk.tier)), "w")
